@@ -14,6 +14,9 @@ type c07Case struct {
 	Doc *vlib.Doc `json:"doc"`
 	// NL: line-end convention of both renderings ("" = LF).
 	NL string `json:"nl,omitempty"`
+	// Faulty: the document holds an injected fault (the reference inliner may
+	// then have nothing to say).
+	Faulty bool `json:"faulty,omitempty"`
 }
 
 func c07Check(c c07Case, info *vlib.Info) *vlib.Failure {
@@ -71,6 +74,10 @@ func c07Check(c c07Case, info *vlib.Info) *vlib.Failure {
 	info.Class("macro-doc-accepted")
 	info.Class("nl:" + map[string]string{"": "LF", "\r\n": "CRLF", "\r": "CR"}[c.NL])
 	inl, prob := vlib.Inline(doc)
+	if prob != "" && c.Faulty {
+		info.Class("faulty-doc-not-inlinable")
+		return nil
+	}
 	if prob != "" {
 		return vlib.Failf("harness: inline", "reference inliner refuses an accepted document: %s\n%s", prob, src)
 	}
@@ -241,6 +248,23 @@ func TestC07(t *testing.T) {
 		return c07Case{Doc: vlib.GenDoc(t, vlib.GenOpts{Macros: true, TopPasteAnywhere: true}),
 			NL: rapid.SampledFrom([]string{"", "", "\r\n", "\r"}).Draw(t, "nl")}
 	}, c07Check)
+	// documents with one injected fault: the library refuses them, and then the
+	// relation says nothing - but if a macro document with a fault is accepted
+	// (a check that only looks at the definition, not at each paste), its
+	// inlined form must be accepted too with the same catalog
+	vlib.Rapid(h, "inline-equivalence-faulty-docs", h.N(6000, 200000), func(t *rapid.T) c07Case {
+		base := vlib.GenDoc(t, vlib.GenOpts{Macros: true, TopPasteAnywhere: true})
+		doc := base
+		if rapid.Bool().Draw(t, "throughPaste") {
+			if d2, _, ok := vlib.InjectFaultOfKind(t, base, "dup-through-second-PASTE"); ok {
+				doc = d2
+			}
+		} else if d2, _, ok := vlib.InjectFault(t, base); ok {
+			doc = d2
+		}
+		return c07Case{Doc: doc, Faulty: true}
+	}, c07Check)
+
 	// PASTE of an undefined macro at any admissible position of a generated
 	// document, with and without macros elsewhere in it
 	vlib.Rapid(h, "undefined-paste-in-generated-docs", h.N(4000, 150000), func(t *rapid.T) faultCase {
